@@ -316,5 +316,57 @@ impl Clone for Ldap {
 //@end
 }
 
+
+// ======================================================================= Add / Modify: the per-element closure bodies
+// `Ldap::add` and `Ldap::modify` build their requests with `.map(|..| { .. })` closures that set a captured flag; this Verus
+// rejects closures capturing `&mut`, so the enclosing functions are NOT under contract.  The closure BODIES are lifted
+// (locator L7) as functions taking the flag by `&mut` (recorded substitution `flag = true` -> `*flag = true`); the inner
+// `set.into_iter().map(|v| OctetString(v)).collect()` over a HashSet is a recorded idiom ("the values as OCTET STRINGs, in
+// the set's iteration order").  Decided: RFC 4511 4.6 / 4.7 shape of one change / one attribute, the operation numbers,
+// and when the "no values" flag is raised.  NOT decided: the surrounding request ([APPLICATION 6]/[8], the DN, the list).
+pub struct AV { pub b: Vec<u8> }      // an attribute name or value (`S: AsRef<[u8]>`)
+impl AV { pub fn as_ref(&self) -> (r: &[u8]) ensures r@ == self.b@ { self.b.as_slice() } }
+pub struct HashSet { pub g: u8 }      // HashSet<S>
+impl HashSet {
+    pub uninterp spec fn count(&self) -> nat;
+    pub uninterp spec fn value_trees(&self) -> Seq<T>;   // the values as OCTET STRINGs, in iteration order
+    #[verifier::external_body] pub fn is_empty(&self) -> (r: bool) ensures r == (self.count() == 0) { unimplemented!() }
+    #[verifier::external_body] pub fn from(a: [AV; 1]) -> (r: HashSet) ensures r.count() == 1, r.value_trees() == seq![t_os(a@[0].b@)] { unimplemented!() }
+}
+#[verifier::external_body]
+pub fn verif_value_tags(set: HashSet) -> (r: Vec<Tag>) ensures trees(r@, r@.len()) == set.value_trees() { unimplemented!() }
+//@item file=src/ldap.rs kind=enum name=Mod retype="Mod<S: AsRef<[u8]> + Eq + Hash> => Mod; HashSet<S> => HashSet; (S, => (AV,; , S) => , AV)"
+pub open spec fn mod_op(m: Mod) -> int { match m { Mod::Add(_, _) => 0, Mod::Delete(_, _) => 1, Mod::Replace(_, _) => 2, Mod::Increment(_, _) => 3 } }
+pub open spec fn mod_attr(m: Mod) -> Seq<u8> { match m { Mod::Add(a, _) => a.b@, Mod::Delete(a, _) => a.b@, Mod::Replace(a, _) => a.b@, Mod::Increment(a, _) => a.b@ } }
+pub open spec fn mod_vals(m: Mod) -> Seq<T> { match m { Mod::Add(_, s) => s.value_trees(), Mod::Delete(_, s) => s.value_trees(), Mod::Replace(_, s) => s.value_trees(), Mod::Increment(_, v) => seq![t_os(v.b@)] } }
+
+//@lift name=modify::change file=src/ldap.rs block=".map(|m|" as="fn modify_change(m: Mod, any_add_empty: &mut bool) -> (r: Tag)"
+//@ sub "any_add_empty = true;" => "*any_add_empty = true;"
+//@ sub "set\n                                            .into_iter()\n                                            .map(|val| {\n                                                Tag::OctetString(OctetString {\n                                                    inner: Vec::from(val.as_ref()),\n                                                    ..Default::default()\n                                                })\n                                            })\n                                            .collect()" => "verif_value_tags(set)"
+//@ insert before "Tag::Sequence(Sequence {\n                                inner: vec![op, part_attr],"
+                            proof {
+                                tree_lemmas::lemma_trees2(part_attr->Sequence_0.inner@, 2);
+                            }
+//@ tail at="Tag::Sequence(Sequence {\n                                inner: vec![op, part_attr],"
+                            proof { tree_lemmas::lemma_trees2(verif_ret->Sequence_0.inner@, 2); }
+//@ spec
+    ensures
+        // RFC 4511 4.6: change ::= SEQUENCE { operation ENUMERATED { add(0), delete(1), replace(2), increment(3) }, modification PartialAttribute { type, vals SET OF } }
+        tree(r) == t_seq(seq![t_enum(mod_op(m)), t_seq(seq![t_os(mod_attr(m)), t_set(mod_vals(m))])]), //# C02.modify_change_rfc4511_4.6_operation_numbers_0_1_2_3
+        *final(any_add_empty) == (*old(any_add_empty) || (m matches Mod::Add(_, s) && s.count() == 0)), //# C02.modify_flags_an_add_without_values
+//@end
+
+//@lift name=add::attribute file=src/ldap.rs block=".map(|(name, vals)|" as="fn add_attribute(name: AV, vals: HashSet, any_empty: &mut bool) -> (r: Tag)"
+//@ sub "any_empty = true;" => "*any_empty = true;"
+//@ sub "vals\n                                            .into_iter()\n                                            .map(|v| {\n                                                Tag::OctetString(OctetString {\n                                                    inner: Vec::from(v.as_ref()),\n                                                    ..Default::default()\n                                                })\n                                            })\n                                            .collect()" => "verif_value_tags(vals)"
+//@ tail at="Tag::Sequence(Sequence {\n                                inner: vec!["
+                            proof { tree_lemmas::lemma_trees2(verif_ret->Sequence_0.inner@, 2); }
+//@ spec
+    ensures
+        // RFC 4511 4.7: Attribute ::= SEQUENCE { type AttributeDescription, vals SET OF value }
+        tree(r) == t_seq(seq![t_os(name.b@), t_set(vals.value_trees())]), //# C02.add_attribute_rfc4511_4.7
+        *final(any_empty) == (*old(any_empty) || vals.count() == 0), //# C02.add_flags_an_attribute_without_values
+//@end
+
 } // verus!
 fn main() {}
